@@ -103,12 +103,13 @@ def freeze(summ):
     return {a: (frozenset(v[0]), v[1], v[2]) for a, v in summ.items()}
 
 
-def run_conc(sess, spec, loop_bound=6, max_rounds=8, timeout_s=600, max_spurious=1, scenario=None):
+def run_conc(sess, spec, loop_bound=6, max_rounds=8, timeout_s=600, max_spurious=1, scenario=None, extract_only=False):
     """spec = {'setup': fn, 'threads': [(pre_fn|None, body_fn), ...], 'final': fn|None, 'covers': [...]}"""
     scenario = scenario or spec.get('name') or '+'.join(b for _, b in spec['threads'])
     t0 = time.time()
     eng = sess.engine(loop_bound=loop_bound)
     eng.max_spurious = max_spurious
+    eng.auto_merge = os.environ.get('IRSYM_NOMERGE') is None
     st = eng.initial_state()
     # --- sequential prefix: setup on thread 0, then each thread's prologue on its own thread id
     def seq(fn, state, thread):
@@ -214,6 +215,9 @@ def run_conc(sess, spec, loop_bound=6, max_rounds=8, timeout_s=600, max_spurious
         fin = eng.explore(spec['final'], s0, env=env, thread=0)
         leaves[0] = fin
     extract_s = time.time() - t0
+    if extract_only:
+        return {'engine': eng, 'base': base, 'leaves': leaves, 'rounds': rounds, 'nthreads': nthreads,
+                'extract_s': extract_s, 'scenario': scenario}
     enc = Encoding(eng, base, leaves, nthreads)
     res = enc.decide(spec, scenario, timeout_s)
     res.update({'scenario': scenario, 'mode': 'M2-SC', 'threads': nthreads, 'rounds': rounds,
@@ -234,7 +238,7 @@ def gated(eng, e):
         if fr.startswith('library/core/src/sync/atomic.rs'):
             continue
         if fr.startswith('harness/src/rt.rs'):
-            return '(peek)' not in fr
+            return '(peek)' not in fr and '(store_ungated)' not in fr
         return fr.startswith('src/')
     return False
 
@@ -735,3 +739,51 @@ class Encoding:
                                   self.eng.loc(e.ins)[:120])
                             print('   guard:', [str(c)[:100] for c in e.guard], 'evals', [str(m.eval(c, model_completion=True)) for c in e.guard])
         return v
+
+
+def run_havoc(sess, spec, subject=1, loop_bound=2, adversary='cs_adv_store', budget_factor=4, scenario=None):
+    """C08: the subject thread against an adversarial environment. Every shared read of the subject returns ANY
+    value that the other threads can ever write to that cell (value domains from the fix-point extraction), with
+    no consistency between reads: a superset of whatever any number of writers do between any two of its steps.
+    The subject must finish every path without taking a loop whose continuation depends on such reads more
+    than `loop_bound` times, and without a blocking call. Decided locally (path feasibility by z3)."""
+    scenario = scenario or spec.get('name')
+    t0 = time.time()
+    ext = run_conc(sess, spec, loop_bound=loop_bound, extract_only=True, scenario=scenario)
+    eng = ext['engine']
+    lv = ext['leaves'][subject]
+    violations = []
+    maxsteps = 0
+    nob = 0
+    for leaf in lv:
+        steps = sum(1 for e in leaf.events if gated(eng, e))
+        if leaf.status == 'done':
+            maxsteps = max(maxsteps, steps)
+        for ob in leaf.oblig:
+            if ob.kind in ('bound', 'blocking'):
+                nob += 1
+                if not eng.feasible(leaf):
+                    continue
+                v = Violation(scenario, 'bound', ob.ident, 'the read path can be kept busy/blocked by other threads: ' + ob.msg,
+                              thread=subject, where=eng.loc(ob.ins))
+                pre = spec['threads'][subject - 1][0]
+                body = spec['threads'][subject - 1][1]
+
+                def custom_replay(path, pre=pre, body=body, maxsteps=maxsteps):
+                    rp.write_replay(path, 'adversary', [body], setup=spec.get('setup'), comment=v.msg,
+                                    flavor=getattr(v, 'flavor', 'rel'), features=getattr(v, 'features', ()))
+                    with open(path, 'a') as f:
+                        if pre:
+                            f.write('pre 1 %s\n' % pre)
+                        f.write('adversary %s\nbudget %d\n' % (adversary, max(64, budget_factor * max(maxsteps, 16))))
+                    nat = rp.run_native(path, timeout=120)
+                    ok = 'STEP-BUDGET-EXCEEDED' in nat['out'] or nat['hung']
+                    return ok, nat['out'][-1500:]
+                v.custom_replay = custom_replay
+                violations.append(v)
+    sess.functions_encoded |= set(eng.fn_instrs)
+    return {'scenario': scenario, 'mode': 'M1-havoc', 'violations': violations, 'inconclusive': [], 'covered': [], 'missing_covers': [],
+            'paths': len(lv), 'events': sum(len(l.events) for l in lv), 'obligations': nob, 'instrs': eng.stats['instrs'],
+            'queries': eng.nqueries, 'solver_s': round(eng.solver_time, 2), 'explore_s': round(time.time() - t0, 2),
+            'rounds': ext['rounds'], 'threads': ext['nthreads'], 'max_own_steps_of_a_complete_read': maxsteps,
+            'sample': {'scenario': scenario, 'subject_paths': len(lv), 'max_own_atomic_steps': maxsteps}}
